@@ -48,6 +48,9 @@ func (it *Interp) lenBound(n *Term, capN int) int {
 	if b > uint64(capN) {
 		b = uint64(capN)
 	}
+	if b > 64 {
+		b = it.ex.maxValue(n, b)
+	}
 	return int(b)
 }
 
